@@ -12,6 +12,8 @@ import (
 	"go.lstv.dev/util/uu"
 	"pgregory.net/rapid"
 
+	"verifharness/ref"
+
 	"verifharness/vkit"
 )
 
@@ -25,6 +27,26 @@ type Case struct {
 	Rule int    `json:"rule,omitempty"`
 	// Limit is the MaxInputLength setting of text cases: 0 here means "package default (45)", -1 means disabled, n > 0 means n.
 	Limit int `json:"max_input_length,omitempty"`
+	// Hooks: before the case is judged, custom package-level Formatter and Parser functions are installed, used and removed.
+	Hooks bool `json:"after_custom_hooks,omitempty"`
+}
+
+// pokeWithCustomHooks: the package-level Formatter and Parser are settings; what was produced under one setting must not be
+// handed out under the next.
+func pokeWithCustomHooks(id uu.ID, text string) {
+	oldF, oldP := uu.Formatter, uu.Parser
+	defer func() { uu.Formatter, uu.Parser = oldF, oldP }()
+	uu.Formatter = func(buf []byte, id uu.ID, f uu.Format) ([]byte, error) {
+		return append(buf, fmt.Sprintf("custom<%x>", id.Lower)...), nil
+	}
+	uu.Parser = func(input []byte, r uu.Rule) (uu.ID, error) { return uu.ID{Higher: 6, Lower: 66}, nil }
+	_, _ = id.String(), id.URN()
+	_ = fmt.Sprintf("%s %v %u", id, id, id)
+	_, _ = id.MarshalText()
+	_, _ = json.Marshal([]uu.ID{id})
+	var u uu.ID
+	_ = u.UnmarshalText([]byte(text))
+	_ = json.Unmarshal([]byte(`"`+text+`"`), &u)
 }
 
 func setLimit(l int) func() {
@@ -330,6 +352,9 @@ func judge(c Case, w *vkit.W) {
 			w.Fail(c, "panic", vkit.PanicDetail(p))
 		}
 	}()
+	if c.Hooks {
+		pokeWithCustomHooks(uu.ID{Higher: c.Hi, Lower: c.Lo}, string(c.Text))
+	}
 	switch c.Kind {
 	case "id":
 		judgeID(c, w)
@@ -546,6 +571,40 @@ func TestCheck(t *testing.T) {
 		})
 	}
 	r.Sampled()
+
+	r.Phase("W2: formatting and parsing again right after custom package-level Formatter/Parser functions were installed, used and removed", func() {
+		r.Serial(func(w *vkit.W) {
+			for i := int64(0); i < 300; i++ {
+				g := r.Rng("hooks", i)
+				hi, lo := g.U64(), g.U64()
+				judge(Case{Kind: "id", Hi: hi, Lo: lo, Hooks: true}, w)
+				w.EvalRandom(vkit.HashU(hi, lo, 77), true)
+				text := format(hi, lo)
+				if i%2 == 1 {
+					text = "urn:uuid:" + strings.ToUpper(text)
+				}
+				for _, rule := range rules {
+					judge(Case{Kind: "text", Text: vkit.B(text), Rule: rule, Hooks: true}, w)
+					w.EvalRandom(vkit.Hash64("W2", text, strconv.Itoa(rule)), true)
+				}
+			}
+		})
+	})
+
+	r.Phase(fmt.Sprintf("W: %d conventional special texts (null, nil, the nil UUID, braces, every prefix of urn:uuid:, ...) x 4 rule sets x limits", len(ref.ConventionalTexts)), func() {
+		for _, lim := range []int{0, -1, 3} {
+			restore := setLimit(lim)
+			r.Serial(func(w *vkit.W) {
+				for _, text := range ref.ConventionalTexts {
+					for _, rule := range rules {
+						judge(Case{Kind: "text", Text: vkit.B(text), Rule: rule, Limit: lim}, w)
+						w.EvalRandom(vkit.Hash64("W", text, strconv.Itoa(rule), strconv.Itoa(lim)), true)
+					}
+				}
+			})
+			restore()
+		}
+	})
 
 	r.Phase(fmt.Sprintf("E: %d cold-start scenarios (which parser call comes first in a fresh process)", len(coldScenarios)), func() {
 		r.Serial(func(w *vkit.W) {
